@@ -1592,8 +1592,17 @@ fn generate_expression(
             context.get_global_name_full(*v)?,
         )),
         ir::Expression::ConstantVariable(id) => {
-            let def = &context.module.cbuffer_registry[id.0.0 as usize].members[id.1 as usize];
-            ast::Expression::Identifier(ast::ScopedIdentifier::trivial(&def.name))
+            // Members of a constant buffer live in the namespace that contains the buffer
+            let cb = &context.module.cbuffer_registry[id.0.0 as usize];
+            let def = &cb.members[id.1 as usize];
+            let mut names = Vec::from([def.name.node.clone()]);
+            let mut namespace = cb.namespace;
+            while let Some(current) = namespace {
+                let name = context.name_map.get_name_leaf(NameSymbol::Namespace(current));
+                names.insert(0, name.to_string());
+                namespace = context.module.namespace_registry.get_namespace_parent(current);
+            }
+            ast::Expression::Identifier(scoped_name_to_identifier(ScopedName(names)))
         }
         ir::Expression::EnumValue(id) => ast::Expression::Identifier(scoped_name_to_identifier(
             context.get_enum_value_name_full(*id)?,
